@@ -52,9 +52,9 @@ theorem kwB_keys (f : Feature) : ∀ p ∈ kwB o f, p.1 = f.name := by
 
 /-- the three parts of the members of a written structure -/
 theorem feats_parts (F : List Feature) (hn : ∀ f ∈ F, NameOk f.name) :
-    ((F.flatMap (jmemF cass H isAnn o)).filter plainP).map kw = F.flatMap (kwA cass isAnn o) ∧
-    (F.flatMap (jmemF cass H isAnn o)).filter refP = F.flatMap (refMem (tgtF cass H o)) ∧
-    parseNums ((F.flatMap (jmemF cass H isAnn o)).filter numP) = .ok (F.flatMap (kwB o)) := by
+    ((F.flatMap (jmemFS cass H isAnn o)).filter plainP).map kw = F.flatMap (kwA cass isAnn o) ∧
+    (F.flatMap (jmemFS cass H isAnn o)).filter refP = F.flatMap (refMem (tgtF cass H o)) ∧
+    parseNums ((F.flatMap (jmemFS cass H isAnn o)).filter numP) = .ok (F.flatMap (kwB o)) := by
   refine ⟨?_, ?_, ?_⟩
   · rw [List.filter_flatMap, List.map_flatMap]
     exact flatMap_congr' F (fun f hf => plain_piece cass H isAnn o _ (hn f hf))
